@@ -658,10 +658,9 @@ Definition dec_cfg (l : list value) : hcfg :=
      h_dek := vbytes (vnth l 11); h_mac_len := vint (vnth l 12); h_nonce := vobytes (vnth l 13);
      h_sig_data := vbytes (vnth l 14); h_sig_csf := vbytes (vnth l 15) |}.
 
-(* 64-byte blocks; an all-zero block is printed as its length, any other as [length; big-endian number]
-   (printing one number per block instead of one per byte keeps the evaluation output small) *)
+(* 64-byte blocks; an all-zero block is printed as its length *)
 Definition rle (l : list N) : value :=
-  VList (map (fun b => if forallb (N.eqb 0) b then VInt (hlen b) else VList [VInt (hlen b); VInt (hdec_be b)]) (chunks 64 l)).
+  VList (map (fun b => if forallb (N.eqb 0) b then VInt (hlen b) else VBytes b) (chunks 64 l)).
 Definition vblocks (l : list (Z * Z)) : value := VList (map (fun b => VList [VInt (fst b); VInt (snd b)]) l).
 Definition v_ivt (i : ivt) : value := VList (map VInt [iv_ver i; iv_app i; iv_dcd i; iv_bdt i; iv_self i; iv_csf i]).
 Definition v_pcmd (c : pcmd) : value :=
@@ -694,3 +693,23 @@ Definition run_case (fn : Z) (args : list value) : value :=
   | 6, [VBytes d] => vres VBytes (bind (xmcd_load d) xmcd_export)            (* SegXMCD.parse -> export *)
   | _, _ => VErr E_BADCASE
   end.
+
+(* Printing: Coq prints numbers through the number-notation machinery (about 0.3 ms per byte); constructor names print
+   ~60x faster.  The harness therefore evaluates  run_case_h  and reads byte strings as lists of hex digits. *)
+Inductive hx := H0 | H1 | H2 | H3 | H4 | H5 | H6 | H7 | H8 | H9 | HA | HB | HC | HD | HE | HF.
+Inductive hval := HInt (z : Z) | HHex (l : list hx) | HList (l : list hval) | HErr (k : N).
+Definition hx_of (n : N) : hx :=
+  match n with
+  | 0 => H0 | 1 => H1 | 2 => H2 | 3 => H3 | 4 => H4 | 5 => H5 | 6 => H6 | 7 => H7
+  | 8 => H8 | 9 => H9 | 10 => HA | 11 => HB | 12 => HC | 13 => HD | 14 => HE | _ => HF
+  end%N.
+Definition hex_of (l : list N) : list hx := concat (map (fun b => [hx_of (b / 16)%N; hx_of (b mod 16)%N]) l).
+Fixpoint to_hval (v : value) : hval :=
+  match v with
+  | VInt z => HInt z
+  | VBytes l => HHex (hex_of l)
+  | VStr l => HHex (hex_of l)
+  | VList l => HList (map to_hval l)
+  | VErr k => HErr k
+  end.
+Definition run_case_h (fn : Z) (args : list value) : hval := to_hval (run_case fn args).
